@@ -20,7 +20,7 @@ RULE = ("Fault injection, two-sided oracle. (pf) generated networks x injected i
         "converged flag, exit code 0 and the independent nodal balance of C01; a False return (or exception) needs "
         "exit code != 0 and converged False, after which TDS.run and EIG.run must return False / raise, leave dae.x, "
         "dae.y, dae.t untouched and keep exit code != 0. (tds) stock dynamic cases x destabilising schedules (long "
-        "solid faults, line trips that island machines, absurd parameter alterations) x configuration (fixed step "
+        "solid faults, line trips that island machines, a split followed by a fault inside the largest island, absurd parameter alterations) x configuration (fixed step "
         "without shrinking, huge step, max_iter 1..3, tol 1e-12, criteria on): True needs t == tf exactly, no NaN in "
         "state or stored series, busted False, exit code 0; False needs exit code != 0; NaN state, t < tf or busted "
         "need False; every stored row follows a step attempt that returned True and whose last Newton increment "
@@ -276,7 +276,7 @@ TDS_BASES = ['kundur/kundur_full.xlsx', 'ieee14/ieee14_full.xlsx', '5bus/pjm5bus
 def tds_cases(draw, quick):
     base = draw(st.sampled_from(TDS_BASES[:4] if quick else TDS_BASES))
     tf = draw(st.sampled_from([0.6, 1.0, 2.0]))
-    stress = draw(st.sampled_from(['long_fault', 'long_fault', 'trip_many', 'alter_absurd', 'cfg_only', 'own', 'bad_init']))
+    stress = draw(st.sampled_from(['long_fault', 'long_fault', 'trip_many', 'alter_absurd', 'cfg_only', 'own', 'bad_init', 'split_then_fault']))
     ev = []
     if stress == 'long_fault':
         t = float(round(draw(st.floats(0.05, 0.3)), 3))
@@ -284,6 +284,12 @@ def tds_cases(draw, quick):
     elif stress == 'trip_many':
         for _ in range(draw(st.integers(2, 6))):
             ev.append(dict(kind='toggle_line', t=float(round(draw(st.floats(0.05, 0.4)), 3)), sel=draw(st.integers(0, 60)), u=1))
+    elif stress == 'split_then_fault':
+        # a few lines opened (may split the network), then a long fault: loss of synchronism inside the largest island
+        for _ in range(draw(st.integers(1, 3))):
+            ev.append(dict(kind='toggle_line', t=float(round(draw(st.floats(0.05, 0.2)), 3)), sel=draw(st.integers(0, 60)), u=1))
+        ev.append(dict(kind='fault', t=float(round(draw(st.floats(0.3, 0.5)), 3)), dur=draw(st.sampled_from([0.4, 0.6])), sel=draw(st.integers(0, 60)), u=1,
+                       xf=1e-4))
     elif stress == 'alter_absurd':
         ev.append(dict(kind='alter', t=float(round(draw(st.floats(0.05, 0.3)), 3)), sel=draw(st.integers(0, 60)), u=1,
                        target=draw(st.sampled_from(['pq_p0', 'line_x'])), method='*', amount=draw(st.sampled_from([50.0, 1e3, -20.0, 1e-6]))))
@@ -438,14 +444,47 @@ def tds_case(ctx, c):
     tripped = None
     if cfg['criteria'] and ss.SynGen.n >= 2 and ts_ok:
         try:
-            da = np.array([int(a) for a in ss.SynGen.delta_addr], dtype=int)
+            # the machines the criterion is about: the in-service synchronous machines of the largest island of the network
+            # as it is at the end of the run (own union-find over the in-service lines), judged on the stored steps after the
+            # last line switching (before it the watched set was a superset, whose spread is not smaller)
+            pos = {b: k for k, b in enumerate(ss.Bus.idx.v)}
+            par = list(range(ss.Bus.n))
+
+            def find(a):
+                while par[a] != a:
+                    par[a] = par[par[a]]
+                    a = par[a]
+                return a
+            for b1, b2, u in zip(ss.Line.bus1.v, ss.Line.bus2.v, ss.Line.u.v):
+                if u:
+                    par[find(pos[b1])] = find(pos[b2])
+            comp = {}
+            for k in range(ss.Bus.n):
+                comp.setdefault(find(k), []).append(k)
+            sizes = sorted((len(v) for v in comp.values()), reverse=True)
+            unique_largest = len(sizes) == 1 or sizes[0] > sizes[1]
+            largest = set(max(comp.values(), key=len))
+            da = []
+            for mdl in ss.SynGen.models.values():
+                for k in range(mdl.n):
+                    if mdl.u.v[k] and pos[mdl.bus.v[k]] in largest:
+                        da.append(int(mdl.delta.a[k]))
+            da = np.array(da, dtype=int)
+            t_sw = max([e['t'] + (e.get('dur') or 0.0) for e in c['events'] if e['kind'] in ('toggle_line',)] + [0.0])
+            if c['stress'] == 'own':
+                t_sw = max([t_sw] + [float(t) for t in ss.Toggle.t.v])
             xs = np.asarray(dae.ts.x)
-            if xs.ndim == 2 and xs.shape[0] and len(da) >= 2:
-                spread = np.max(xs[:, da], axis=1) - np.min(xs[:, da], axis=1)
+            tt = np.asarray(dae.ts.t)
+            if xs.ndim == 2 and xs.shape[0] and len(da) >= 2 and unique_largest:
+                keep = tt > t_sw + 2e-4
+                spread = (np.max(xs[:, da], axis=1) - np.min(xs[:, da], axis=1))[keep]
                 lim = np.deg2rad(float(tds.config.ddelta_limit))
                 tripped = bool(np.any(spread[:-1] > lim * 1.02)) if len(spread) > 1 else False
                 ctx.count('tds:criterion_%s' % ('tripped' if tripped else 'not_tripped'))
-        except Exception:
+                if len(comp) > 1:
+                    ctx.count('tds:criterion_judged_on_split_network')
+        except Exception as e:
+            ctx.note('criterion oracle failed: %s' % repr(e)[:120])
             tripped = None
     if ret and tripped:
         ctx.fail('success_although_stability_criterion_tripped', dict(case=brief, limit_deg=float(tds.config.ddelta_limit)), sig=sig)
@@ -486,6 +525,22 @@ def tds_case(ctx, c):
 def camp_tds(ctx):
     quick = ctx.tier == 'quick'
     n = dict(quick=24, thorough=300)[ctx.tier]
+    if ctx.shard < 2:
+        # anchor: the network is split so that one machine is left in a small island, then a long solid fault inside the
+        # largest island (stability criterion on); the lines to open are looked up by their terminal buses
+        import andes
+        ss0 = build.load_case(os.path.join(build.cases_root(), 'kundur/kundur_full.xlsx'), setup=False)
+        lines = list(ss0.Line.idx.v)
+        cut = [k for k, (a, b) in enumerate(zip(ss0.Line.bus1.v, ss0.Line.bus2.v)) if {a, b} == {9, 10}]
+        buses = list(ss0.Bus.idx.v)
+        ev = [dict(kind='toggle_line', t=0.1, sel=k, u=1) for k in cut]
+        ev.append(dict(kind='fault', t=0.3, dur=0.5 if ctx.shard == 0 else 0.7, sel=buses.index(5), u=1, xf=1e-4))
+        c = dict(base='kundur/kundur_full.xlsx', tf=2.5, stress='split_then_fault', events=ev, bad=None,
+                 cfg=dict(method='trapezoid', fixt=1, shrinkt=1, tstep=1 / 30, max_iter=15, tol=1e-4, criteria=1, sparselib='klu', again=False))
+        ctx.current_case = c
+        ctx.evaluated()
+        ctx.count('tds:anchor_split_then_fault')
+        tds_case(ctx, c)
     drive(ctx, tds_cases(quick), lambda c: (ctx.evaluated(), tds_case(ctx, c)), n=n, name='tds', chunk=6,
           budget_s=dict(quick=170, thorough=2400)[ctx.tier])
 
